@@ -118,6 +118,65 @@ let show_sem_crossing c =
 let show_sem s =
   "(" ^ show_nat s.Sem.s_trials ^ " " ^ show_list show_sem_factor s.Sem.s_factors ^ " " ^ show_list show_sem_crossing s.Sem.s_crossings
   ^ " " ^ show_list show_sem_constraint s.Sem.s_constraints ^ ")"
+(* ---- Front/CreateFlat.v: input parser and a printer of flat records in the wire format of harness/flat.py ---- *)
+let iconstraint_of_sexp = function
+  | L [A "factor"; A kind; k; f; wb] ->
+    let kd = (match kind with
+      | "AtMostKInARow" -> CreateFlat.RAtMost | "AtLeastKInARow" -> CreateFlat.RAtLeast | "ExactlyK" -> CreateFlat.RExactlyK
+      | "ExactlyKInARow" -> CreateFlat.RExactlyKInARow | _ -> CreateFlat.RExactlyKMultiple) in
+    CreateFlat.IKRowFactor (kd, nat_of_sexp k, nat_of_sexp f, Wire_flat.geom_of_sexp wb)
+  | c -> CreateFlat.ICon (Wire_flat.constraint_of_sexp c)
+let create_input_of_sexp = function
+  | L [design; crossings; sustains; weights; cons; rcc; mode; al; excl; derivs; excld; errs] ->
+    { CreateFlat.ci_design = list_of_sexp Wire_flat.factor_of_sexp design; CreateFlat.ci_crossings = natll_of_sexp crossings;
+      CreateFlat.ci_sustains = list_of_sexp nat_of_sexp sustains; CreateFlat.ci_weights = list_of_sexp nat_of_sexp weights;
+      CreateFlat.ci_constraints = list_of_sexp iconstraint_of_sexp cons; CreateFlat.ci_rcc = bool_of_sexp rcc;
+      CreateFlat.ci_mode = mode_of_sexp mode; CreateFlat.ci_alignment = Wire_flat.alignment_of_sexp al;
+      CreateFlat.ci_exclusions = list_of_sexp nat_of_sexp excl;
+      CreateFlat.ci_derivations = list_of_sexp Wire_flat.constraint_of_sexp derivs;
+      CreateFlat.ci_excluded_derived = list_of_sexp Wire_flat.pairs_of_sexp excld; CreateFlat.ci_errors_fail = bool_of_sexp errs }
+  | _ -> failwith "create_input"
+let show_cellopt = function None -> "-1" | Some n -> show_nat n
+let show_fgeom = function
+  | None -> "none"
+  | Some g ->
+    let ps = Stdlib.List.sort compare (Stdlib.List.map (fun (a, b) -> (int_of_nat a, int_of_nat b)) g.Flat.g_sustain) in
+    "(" ^ show_nat g.Flat.g_trials ^ " " ^ show_nat g.Flat.g_preamble ^ " ("
+    ^ Stdlib.String.concat " " (Stdlib.List.map (fun (a, b) -> "(" ^ string_of_int a ^ " " ^ string_of_int b ^ ")") ps) ^ "))"
+let show_didx = function Flat.DIdx n -> show_nat n | Flat.DBefore r -> "(before " ^ show_nat r ^ ")"
+let show_fconstraint = function
+  | Flat.FCross -> "(Cross)" | Flat.FConsistency -> "(Consistency)" | Flat.FSustain -> "(Sustain)"
+  | Flat.FDerivation (d, deps, f) -> "(Derivation " ^ show_nat d ^ " " ^ show_list (show_list show_didx) deps ^ " " ^ show_nat f ^ ")"
+  | Flat.FAtMost (k, f, l, wb) -> "(AtMostKInARow " ^ show_nat k ^ " " ^ show_nat f ^ " " ^ show_nat l ^ " " ^ show_fgeom wb ^ ")"
+  | Flat.FAtLeast (k, f, l, wb) -> "(AtLeastKInARow " ^ show_nat k ^ " " ^ show_nat f ^ " " ^ show_nat l ^ " " ^ show_fgeom wb ^ ")"
+  | Flat.FExactlyK (k, f, l, wb) -> "(ExactlyK " ^ show_nat k ^ " " ^ show_nat f ^ " " ^ show_nat l ^ " " ^ show_fgeom wb ^ ")"
+  | Flat.FExactlyKInARow (k, f, l, wb) -> "(ExactlyKInARow " ^ show_nat k ^ " " ^ show_nat f ^ " " ^ show_nat l ^ " " ^ show_fgeom wb ^ ")"
+  | Flat.FExactlyKMultiple (k, f, l, wb) -> "(ExactlyKMultipleInARow " ^ show_nat k ^ " " ^ show_nat f ^ " " ^ show_nat l ^ " " ^ show_fgeom wb ^ ")"
+  | Flat.FExclude (f, l) -> "(Exclude " ^ show_nat f ^ " " ^ show_nat l ^ ")"
+  | Flat.FPin (i, f, l, wb) -> "(Pin " ^ show_z i ^ " " ^ show_nat f ^ " " ^ show_nat l ^ " " ^ show_fgeom wb ^ ")"
+  | Flat.FReify f -> "(Reify " ^ show_nat f ^ ")"
+  | Flat.FMinimumTrials n -> "(MinimumTrials " ^ show_z n ^ ")"
+  | Flat.FContinuous -> "(ContinuousConstraint)"
+  | Flat.FLatin fs -> "(LatinSquare " ^ show_natlist fs ^ ")"
+  | Flat.FSequential f -> "(Sequential " ^ show_nat f ^ ")"
+  | Flat.FOther name -> "(" ^ implode name ^ ")"
+let show_ffactor f =
+  "(" ^ show_str f.Flat.ff_name ^ " " ^ show_bool f.Flat.ff_hidden ^ " "
+  ^ show_list (fun l -> "(" ^ show_str l.Flat.lv_name ^ " " ^ show_nat l.Flat.lv_weight ^ " "
+                        ^ show_list (show_list (show_list show_cellopt)) l.Flat.lv_accepts ^ ")") f.Flat.ff_levels ^ " "
+  ^ (match f.Flat.ff_window with
+     | None -> "none"
+     | Some w -> "(" ^ show_natlist w.Flat.win_deps ^ " " ^ show_nat w.Flat.win_width ^ " " ^ show_nat w.Flat.win_stride ^ " "
+                 ^ show_nat w.Flat.win_start ^ " " ^ show_z w.Flat.win_start_delta ^ ")")
+  ^ " " ^ show_bool f.Flat.ff_complex ^ ")"
+let show_pairs = show_list show_pairnn
+let show_flat fb =
+  "(" ^ show_list show_ffactor fb.Flat.fl_design ^ " " ^ show_natlist fb.Flat.fl_act ^ " " ^ show_list show_natlist fb.Flat.fl_crossings
+  ^ " " ^ show_natlist fb.Flat.fl_sustains ^ " " ^ show_natlist fb.Flat.fl_weights ^ " " ^ show_natlist fb.Flat.fl_sizes
+  ^ " " ^ show_natlist fb.Flat.fl_preambles ^ " " ^ show_al fb.Flat.fl_alignment ^ " " ^ show_nat fb.Flat.fl_alignment_preamble
+  ^ " " ^ show_nat fb.Flat.fl_min_trials ^ " " ^ show_nat fb.Flat.fl_trials ^ " " ^ show_bool fb.Flat.fl_rcc
+  ^ " " ^ show_pairs fb.Flat.fl_exclude ^ " " ^ show_list show_pairs fb.Flat.fl_excluded_derived
+  ^ " " ^ show_list show_fconstraint fb.Flat.fl_constraints ^ " " ^ show_bool fb.Flat.fl_errors_fail ^ ")"
 let show_wres = function
   | Trials.WOk ws -> show_zlist ws | Trials.WErrEqual -> "ErrEqual" | Trials.WErrDiv -> "ErrDiv" | Trials.WErrIndex -> "ErrIndex"
 let () =
@@ -157,6 +216,15 @@ let () =
     let n = Stdlib.List.fold_left (fun a w -> a + int_of_nat w) 0 ws in
     show_bool (DesugarSem.free_b sm f) ^ " " ^ show_sem (DesugarSem.widen f (nat_of_int n) sm) ^ " "
     ^ show_natlist (Stdlib.List.init n (fun c -> DesugarSem.orig ws (nat_of_int c)))
+    | _ -> "!args");
+  (* (createflat INPUT) -> (ok FLAT) | (error E) *)
+  register "createflat" (function [i] ->
+    (match CreateFlat.create_flat (create_input_of_sexp i) with
+     | CreateFlat.FOk fb -> "(ok " ^ show_flat fb ^ ")"
+     | CreateFlat.FErr CreateFlat.FUnsupported -> "(error unsupported)"
+     | CreateFlat.FErr CreateFlat.FEqualPreamble -> "(error equal-preamble)"
+     | CreateFlat.FErr CreateFlat.FEqualMode -> "(error equal-mode)"
+     | CreateFlat.FErr CreateFlat.FArith -> "(error arith)")
     | _ -> "!args");
   register "trreq" (function [f; fi; size] ->
     show_opt show_nat (Trials.trials_required (Wire_flat.flat_of_sexp f) (nat_of_sexp fi) (nat_of_sexp size)) | _ -> "!args");
